@@ -79,26 +79,20 @@ theorem C15_singleton_needs_injective :
 
 /-! ### table obligations over Generated/CacheSites.lean -/
 
-def readsGuarded (s : Site) : Bool := !s.reads || s.guarded
+/-- every read of the cache is protected by recompute-on-miss, or cannot be reached at all -/
+def readsGuarded (s : Site) : Bool := !s.reads || s.guarded || s.unreachable
 
-/- Full statement — FALSE on the current tree (D10): `_SetIndexPost._divisions` does
-   `assert key in divisions_lru; return divisions_lru[key]`.
-
+/-- Every read of a process-global cache anywhere in dask_expr recomputes on a miss, or sits in a branch no
+    constructor call can reach.  (Until /repo 53e3171 this was false for `_SetIndexPost._divisions`, D10: the lowered
+    `set_index` plan now carries its divisions as the `user_divisions` operand; the scan checks that *every* call
+    `_SetIndexPost(…)` passes a value that is syntactically never `None`.) -/
 theorem C15_no_assert_on_miss : ∀ s ∈ Generated.cacheSites, readsGuarded s = true := by decide
--/
 
-/-- the one site known to read a global cache without recompute-on-miss -/
+/-- the former D10 site: its `assert key in divisions_lru` read is still in the source, but dead -/
 def assertSite : String := "_shuffle.py:_SetIndexPost._divisions"
 
-/-- Every read of a process-global cache anywhere in dask_expr recomputes on a miss — except exactly
-    `_SetIndexPost._divisions`. -/
-theorem C15_no_assert_on_miss_partial :
-    ∀ s ∈ Generated.cacheSites, s.func ≠ assertSite → readsGuarded s = true := by decide
-
-/-- … and that site really is an unguarded, asserting read of `divisions_lru` (so the exclusion is exact). -/
-theorem C15_assert_on_miss_site :
-    ∃ s ∈ Generated.cacheSites, s.func = assertSite ∧ s.cache = "divisions_lru" ∧ s.asserts = true ∧ readsGuarded s = false := by
-  decide
+theorem C15_assert_site_is_dead :
+    ∀ s ∈ Generated.cacheSites, s.asserts = true → s.func = assertSite ∧ s.unreachable = true := by decide
 
 /-- Inputs of a memoised computation that its key does not mention, with the reason each is harmless. -/
 def justifiedUncovered : List (String × String) :=
